@@ -43,6 +43,9 @@ type File struct {
 	Mapfirst bool     `json:"mapfirst"`
 	Base     Base     `json:"base"`
 	Members  []Member `json:"members"`
+	// Impl: the class implements an interface of another package of the project (imported) that declares methods with
+	// the same names as the class's members; the interface is in the identifier map handed to the scan
+	Impl bool `json:"impl"`
 }
 
 type Case struct {
@@ -104,7 +107,11 @@ func render(f File, layout int) string {
 	r := rand.New(rand.NewSource(int64(layout)*7919 + int64(len(f.Cls))))
 	var b strings.Builder
 	fmt.Fprintf(&b, "package %s;\n\n", f.Pkg)
-	b.WriteString("import org.springframework.web.bind.annotation.*;\nimport java.util.List;\n\n")
+	b.WriteString("import org.springframework.web.bind.annotation.*;\nimport java.util.List;\n")
+	if f.Impl {
+		b.WriteString("import contracts." + f.Cls + "Api;\n")
+	}
+	b.WriteString("\n")
 	var anns []string
 	ctrl := ""
 	if f.Ctrl != "none" {
@@ -130,7 +137,11 @@ func render(f File, layout int) string {
 	if layout%3 == 1 {
 		b.WriteString("// " + f.Cls + " endpoints\n")
 	}
-	fmt.Fprintf(&b, "public class %s {\n", f.Cls)
+	if f.Impl {
+		fmt.Fprintf(&b, "public class %s implements %sApi {\n", f.Cls, f.Cls)
+	} else {
+		fmt.Fprintf(&b, "public class %s {\n", f.Cls)
+	}
 	if layout%2 == 0 {
 		b.WriteString("    private final Helper helper = new Helper();\n\n")
 	}
@@ -171,7 +182,18 @@ func runOnce(c Case, ri int, scratch string) RunObs {
 	}
 	p, msg := lib.Guard(func() {
 		app := new(api.JavaApiApp)
-		res := app.AnalysisPath(dir, nil, map[string]core_domain.CodeDataStruct{}, map[string]string{})
+		ident := map[string]core_domain.CodeDataStruct{}
+		for _, k := range c.Runs[ri] {
+			f := c.Files[k-1]
+			if f.Impl {
+				n := core_domain.CodeDataStruct{Package: "contracts", NodeName: f.Cls + "Api", Type: "Interface"}
+				for _, m := range f.Members {
+					n.Functions = append(n.Functions, core_domain.CodeFunction{Name: m.Name})
+				}
+				ident["contracts."+f.Cls+"Api"] = n
+			}
+		}
+		res := app.AnalysisPath(dir, nil, ident, map[string]string{})
 		for _, a := range res {
 			o.Apis = append(o.Apis, ApiObs{Verb: a.HttpMethod, Uri: a.Uri, Body: a.RequestBodyClass, Pkg: a.PackageName, Cls: a.ClassName, Method: a.MethodName})
 		}
@@ -264,6 +286,7 @@ func genFile(r *rand.Rand, idx int) File {
 		f.Base = Base{Form: "value", Path: fmt.Sprintf("/api/r%d", idx)}
 	}
 	f.Mapfirst = f.Base.Form != "none" && r.Intn(4) == 0
+	f.Impl = r.Intn(4) == 0
 	n := r.Intn(6)
 	for i := 0; i < n; i++ {
 		m := Member{Name: fmt.Sprintf("m%d", i), Params: []Param{}}
